@@ -234,136 +234,7 @@ func runC03(r *Report) {
 		}
 		r.Floor("R-C03-2", 9, "proof-detail obligations")
 
-		// ---- R-C03-3 gate order ----------------------------------------------
-		cred := []string{"ServerAuthHandler.handleFirstConnection", "GetClientConfig", "ServerAuthHandler.handleChallengePhase1", "ServerAuthHandler.handleChallengePhase2"}
-		credCalls := Calls(hh, false, cred...)
-		isCred := func(in ssa.Instruction) bool {
-			for _, c := range credCalls {
-				if in == c.(ssa.Instruction) {
-					return true
-				}
-			}
-			return false
-		}
-		type gate struct {
-			callee, comp string
-			rejectWhen   bool // value of result #0 (or the bool) on which the request must be refused
-			onlyFor      []string
-		}
-		gates := []gate{
-			{"IPManager.IsAllowed", "ipManager", false, nil},
-			{"BruteForceProtector.IsBanned", "bruteForceProtector", true, nil},
-			{"RateLimiter.AllowIP", "rateLimiter", false, []string{"handleFirstConnection"}},
-			{"ClientConfig.IsExpired", "", true, []string{"handleChallengePhase1", "handleChallengePhase2"}},
-		}
-		for _, g := range gates {
-			gc := Calls(hh, false, g.callee)
-			if len(gc) != 1 {
-				r.Fail("R-C03-3", hh.Pos(), fmt.Sprintf("expected one %s call in HandleHandshake, found %d", g.callee, len(gc)), "HandleHandshake", "gate:"+g.callee)
-				continue
-			}
-			call := gc[0]
-			res := ssa.Value(call.(*ssa.Call))
-			if tup, ok := call.(*ssa.Call).Type().(*types.Tuple); ok && tup.Len() > 1 {
-				res = extractOf(call, 0)
-			}
-			// rejecting edge reaches no credential function
-			var iff *ssa.If
-			if res != nil && res.Referrers() != nil {
-				for _, ref := range *res.Referrers() {
-					if i, ok := ref.(*ssa.If); ok {
-						iff = i
-					}
-					if u, ok := ref.(*ssa.UnOp); ok && u.Referrers() != nil {
-						for _, r2 := range *u.Referrers() {
-							if i, ok := r2.(*ssa.If); ok {
-								iff = i
-							}
-						}
-					}
-				}
-			}
-			if iff == nil {
-				r.Fail("R-C03-3", CallPos(call), "result of "+g.callee+" does not decide a branch", "HandleHandshake", "gate:"+g.callee)
-				continue
-			}
-			_, pol := normCond(iff.Cond, true)
-			rejSucc := 1
-			if g.rejectWhen == pol {
-				rejSucc = 0
-			}
-			hits := WalkFrom(iff.Block().Succs[rejSucc], nil, func(in ssa.Instruction) int {
-				if isCred(in) {
-					if len(g.onlyFor) > 0 {
-						name := CalleeOf(in.(ssa.CallInstruction)).Name
-						m := false
-						for _, o := range g.onlyFor {
-							if o == name {
-								m = true
-							}
-						}
-						if !m {
-							return Cont
-						}
-					}
-					return Hit
-				}
-				return Cont
-			}, nil)
-			r.Ob("R-C03-3", CallPos(call), len(hits) == 0, "no credential function is reachable from the rejecting outcome of "+g.callee, "HandleHandshake", "gate-rejects:"+g.callee)
-			// the gate is passed on every path to the credential functions (unless its component is nil)
-			for _, cc := range credCalls {
-				name := CalleeOf(cc).Name
-				if len(g.onlyFor) > 0 {
-					m := false
-					for _, o := range g.onlyFor {
-						if o == name {
-							m = true
-						}
-					}
-					if !m {
-						continue
-					}
-				}
-				skipped := WalkFrom(hh.Blocks[0], nil, func(in ssa.Instruction) int {
-					if in == call.(ssa.Instruction) {
-						return Stop
-					}
-					if in == cc.(ssa.Instruction) {
-						return Hit
-					}
-					return Cont
-				}, func(b *ssa.BasicBlock, succ int) bool {
-					if !ConsistentEdge(b, succ, cc.Block()) {
-						return false // contradicts a condition that dominates the target (infeasible path)
-					}
-					if g.comp == "" {
-						return true
-					}
-					last, ok := b.Instrs[len(b.Instrs)-1].(*ssa.If)
-					if !ok {
-						return true
-					}
-					c, pol := normCond(last.Cond, true)
-					if x, tmn, ok := NilTest(c); ok {
-						if _, fld, _, ok := FieldOf(x); ok && fld == g.comp {
-							nilSucc := 0
-							if tmn != pol {
-								nilSucc = 1
-							}
-							return succ != nilSucc
-						}
-					}
-					return true
-				})
-				r.Ob("R-C03-3", CallPos(cc), len(skipped) == 0, g.callee+" is evaluated on every path to "+name+" (component-absent paths excepted)", "HandleHandshake", "gate-before:"+g.callee+"->"+name)
-			}
-			// gate argument is the connection's address
-			if g.comp != "" {
-				o := originSummary(Arg(call, 0))
-				r.Ob("R-C03-3", CallPos(call), !strings.Contains(o, "param:req") && strings.Contains(o, "extractIP"), "address given to "+g.callee+": "+o+" (want extractIP(conn.GetRemoteAddr()), never a request field)", "HandleHandshake", "gate-address:"+g.callee)
-			}
-		}
+		checkHandshakeGates(r, "R-C03-3", hh)
 	}
 
 	// ---- R-C03-5 extractIP uses the typed branch ---------------------------------
@@ -443,4 +314,139 @@ func sameConnValue(a, b ssa.Value) bool {
 		return true
 	}
 	return a != nil && b != nil && originSummary(a) == originSummary(b)
+}
+
+// checkHandshakeGates: gate order and rejecting edges of HandleHandshake
+// (shared by C03 and C18).
+func checkHandshakeGates(r *Report, rule string, hh *ssa.Function) {
+	// ---- R-C03-3 gate order ----------------------------------------------
+	cred := []string{"ServerAuthHandler.handleFirstConnection", "GetClientConfig", "ServerAuthHandler.handleChallengePhase1", "ServerAuthHandler.handleChallengePhase2"}
+	credCalls := Calls(hh, false, cred...)
+	isCred := func(in ssa.Instruction) bool {
+		for _, c := range credCalls {
+			if in == c.(ssa.Instruction) {
+				return true
+			}
+		}
+		return false
+	}
+	type gate struct {
+		callee, comp string
+		rejectWhen   bool // value of result #0 (or the bool) on which the request must be refused
+		onlyFor      []string
+	}
+	gates := []gate{
+		{"IPManager.IsAllowed", "ipManager", false, nil},
+		{"BruteForceProtector.IsBanned", "bruteForceProtector", true, nil},
+		{"RateLimiter.AllowIP", "rateLimiter", false, []string{"handleFirstConnection"}},
+		{"ClientConfig.IsExpired", "", true, []string{"handleChallengePhase1", "handleChallengePhase2"}},
+	}
+	for _, g := range gates {
+		gc := Calls(hh, false, g.callee)
+		if len(gc) != 1 {
+			r.Fail(rule, hh.Pos(), fmt.Sprintf("expected one %s call in HandleHandshake, found %d", g.callee, len(gc)), "HandleHandshake", "gate:"+g.callee)
+			continue
+		}
+		call := gc[0]
+		res := ssa.Value(call.(*ssa.Call))
+		if tup, ok := call.(*ssa.Call).Type().(*types.Tuple); ok && tup.Len() > 1 {
+			res = extractOf(call, 0)
+		}
+		// rejecting edge reaches no credential function
+		var iff *ssa.If
+		if res != nil && res.Referrers() != nil {
+			for _, ref := range *res.Referrers() {
+				if i, ok := ref.(*ssa.If); ok {
+					iff = i
+				}
+				if u, ok := ref.(*ssa.UnOp); ok && u.Referrers() != nil {
+					for _, r2 := range *u.Referrers() {
+						if i, ok := r2.(*ssa.If); ok {
+							iff = i
+						}
+					}
+				}
+			}
+		}
+		if iff == nil {
+			r.Fail(rule, CallPos(call), "result of "+g.callee+" does not decide a branch", "HandleHandshake", "gate:"+g.callee)
+			continue
+		}
+		_, pol := normCond(iff.Cond, true)
+		rejSucc := 1
+		if g.rejectWhen == pol {
+			rejSucc = 0
+		}
+		hits := WalkFrom(iff.Block().Succs[rejSucc], nil, func(in ssa.Instruction) int {
+			if isCred(in) {
+				if len(g.onlyFor) > 0 {
+					name := CalleeOf(in.(ssa.CallInstruction)).Name
+					m := false
+					for _, o := range g.onlyFor {
+						if o == name {
+							m = true
+						}
+					}
+					if !m {
+						return Cont
+					}
+				}
+				return Hit
+			}
+			return Cont
+		}, nil)
+		r.Ob(rule, CallPos(call), len(hits) == 0, "no credential function is reachable from the rejecting outcome of "+g.callee, "HandleHandshake", "gate-rejects:"+g.callee)
+		// the gate is passed on every path to the credential functions (unless its component is nil)
+		for _, cc := range credCalls {
+			name := CalleeOf(cc).Name
+			if len(g.onlyFor) > 0 {
+				m := false
+				for _, o := range g.onlyFor {
+					if o == name {
+						m = true
+					}
+				}
+				if !m {
+					continue
+				}
+			}
+			skipped := WalkFrom(hh.Blocks[0], nil, func(in ssa.Instruction) int {
+				if in == call.(ssa.Instruction) {
+					return Stop
+				}
+				if in == cc.(ssa.Instruction) {
+					return Hit
+				}
+				return Cont
+			}, func(b *ssa.BasicBlock, succ int) bool {
+				if !ConsistentEdge(b, succ, cc.Block()) {
+					return false // contradicts a condition that dominates the target (infeasible path)
+				}
+				if g.comp == "" {
+					return true
+				}
+				last, ok := b.Instrs[len(b.Instrs)-1].(*ssa.If)
+				if !ok {
+					return true
+				}
+				c, pol := normCond(last.Cond, true)
+				if x, tmn, ok := NilTest(c); ok {
+					if _, fld, _, ok := FieldOf(x); ok && fld == g.comp {
+						nilSucc := 0
+						if tmn != pol {
+							nilSucc = 1
+						}
+						return succ != nilSucc
+					}
+				}
+				return true
+			})
+			r.Ob(rule, CallPos(cc), len(skipped) == 0, g.callee+" is evaluated on every path to "+name+" (component-absent paths excepted)", "HandleHandshake", "gate-before:"+g.callee+"->"+name)
+		}
+		// gate argument is the connection's address
+		if g.comp != "" {
+			o := originSummary(Arg(call, 0))
+			r.Ob(rule, CallPos(call), !strings.Contains(o, "param:req") && strings.Contains(o, "extractIP"), "address given to "+g.callee+": "+o+" (want extractIP(conn.GetRemoteAddr()), never a request field)", "HandleHandshake", "gate-address:"+g.callee)
+		}
+	}
 }
